@@ -14,7 +14,7 @@
    reports in ([r_launch]), which tasks refuse CONFIGURE ([r_cfgerr]), whether the first critical task
    refuses a transition ([fail] / [tfail]), which stage of the creation fails ([c_fail]).
    Definitions only; shared by C04 and C06 (one case type, two monitors). *)
-From Verif Require Import Common Ownership Gen_TdOrder.
+From Verif Require Import Common Ownership Gen_TdOrder Gen_AcqRoster.
 Open Scope N_scope.
 
 (* ---------- environment states ---------- *)
@@ -251,13 +251,22 @@ Record cspec := mkSpec {
   c_fail : N;          (* 0 none, 1 template file missing, 2 template error, 3 host without detector,
                           4 a critical role no agent can take, 5 the DEPLOY transition gave up on its timeout
                           although every task reported in (its status notification was lost: the
-                          non-blocking fan-out of workflow status changes drops what nobody is waiting for) *)
+                          non-blocking fan-out of workflow status changes drops what nobody is waiting for),
+                          6 partial deployment failure: a critical role is offered its host but fails a further
+                          constraint; every other task role is launched, in each of the three deployment
+                          attempts of acquireTasks *)
   c_roles : list role
 }.
 
 Definition launch_task (e : N) (ir : N * role) : task :=
   mkTask (tid_of e (fst ir)) (Some e) (N.eqb (r_launch (snd ir)) 0)
          (if N.eqb (r_launch (snd ir)) 1 then TS_ERROR else TS_STANDBY) true.
+
+(* the tasks launched by deployment attempt [a] (0, 1, 2) of a deployment that acquireTasks retries:
+   attempt a of role i is task i + a * (number of roles); they never get a parent *)
+Definition att_id (e : N) (n a : N) (ir : N * role) : tid := tid_of e (fst ir + a * n).
+Definition att_task (e : N) (n a : N) (ir : N * role) : task :=
+  mkTask (att_id e n a ir) None (N.eqb (r_launch (snd ir)) 0) TS_STANDBY true.
 
 (* entry of CreateEnvironment *)
 Definition snap (e : N) (missing : bool) (s : st) : st * out :=
@@ -284,6 +293,16 @@ Definition finish (e : N) (c : cspec) (s : st) : st * out :=
         if N.eqb (c_fail c) 4 then
           let xe := set_estate ES_ERROR (leave_upd ES_STANDBY (leave_upd ES_STANDBY x0)) in
           create_tail xe (with_envs s0 (s_envs s0 ++ [xe])) [] []
+        else if N.eqb (c_fail c) 6 then
+          (* three attempts, each launches every task role; only the tasks of the last attempt are written
+             to the roster (unowned: the deployment failed) - and those only because the roster is written
+             whether or not the deployment succeeded (gen/Gen_AcqRoster.v) *)
+          let xe := set_estate ES_ERROR (leave_upd ES_STANDBY (leave_upd ES_STANDBY x0)) in
+          let trs := task_iroles (set_bound x0) in
+          let n := Nlen (c_roles c) in
+          let last := if acq_roster_unconditional then map (att_task e n 2) trs else [] in
+          create_tail xe (mkSt (s_envs s0 ++ [xe]) (s_roster s0 ++ last) (s_snaps s0)) []
+                      (map (att_id e n 0) trs ++ map (att_id e n 1) trs ++ map (att_id e n 2) trs)
         else
           let x1 := set_bound x0 in
           let launched := map (fun ir => tid_of e (fst ir)) (task_iroles x1) in
@@ -462,7 +481,8 @@ Record obs := mkObs {
   ob_trigs : list tid;
   ob_early : N;               (* DESTROY hooks started while a non-hook task was still owned *)
   ob_pend : N;                (* after a destroy: calls of that environment still pending and not cancelled *)
-  ob_launch : list tid        (* tasks launched during the request *)
+  ob_launch : list tid;       (* tasks launched during the request *)
+  ob_leak : list tid          (* tasks launched so far that run at the master, are in no roster and were never sent KILL *)
 }.
 
 Fixpoint ins_eo (x : envobs) (l : list envobs) : list envobs :=
@@ -483,13 +503,26 @@ Definition observe (s : st) (o : out) : obs :=
         (sort_roster (map norm_task (s_roster s)))
         (dedupN (sortN (active_dets (s_envs s))))
         (sort_tids (o_kills o)) (sort_tids (o_cmds o)) (o_calls o) (sort_tids (o_trigs o)) 0 (o_pend o)
-        (sort_tids (o_launch o)).
+        (sort_tids (o_launch o)) [].
 
-Fixpoint run_obs (s : st) (ops : list op) : list obs :=
+(* tasks launched in a step that are neither KILLed in it nor in the roster after it stay unknown to
+   the task manager for ever: nothing can select them for a KILL later *)
+Definition new_leak (s' : st) (u : out) : list tid :=
+  filter (fun id => negb (mem_tid id (o_kills u)) &&
+                    negb (existsb (fun t => tid_eqb (t_id t) id) (s_roster s'))) (o_launch u).
+
+Definition with_leak (l : list tid) (o : obs) : obs :=
+  mkObs (ob_rc o) (ob_envs o) (ob_roster o) (ob_adets o) (ob_kills o) (ob_cmds o) (ob_calls o) (ob_trigs o)
+        (ob_early o) (ob_pend o) (ob_launch o) (sort_tids l).
+
+Fixpoint run_obs_from (leak : list tid) (s : st) (ops : list op) : list obs :=
   match ops with
   | [] => []
-  | o :: r => let '(s', u) := step s o in observe s' u :: run_obs s' r
+  | o :: r => let '(s', u) := step s o in
+              let leak' := leak ++ new_leak s' u in
+              with_leak leak' (observe s' u) :: run_obs_from leak' s' r
   end.
+Definition run_obs (s : st) (ops : list op) : list obs := run_obs_from [] s ops.
 
 Definition listN_eqb := list_eqb N.eqb.
 Definition tids_eqb := list_eqb tid_eqb.
@@ -502,7 +535,7 @@ Definition obs_eqb (a b : obs) : bool :=
   tids_eqb (ob_kills a) (ob_kills b) && tids_eqb (ob_cmds a) (ob_cmds b) &&
   tids_eqb (ob_calls a) (ob_calls b) && tids_eqb (ob_trigs a) (ob_trigs b) &&
   N.eqb (ob_early a) (ob_early b) && N.eqb (ob_pend a) (ob_pend b) &&
-  tids_eqb (ob_launch a) (ob_launch b).
+  tids_eqb (ob_launch a) (ob_launch b) && tids_eqb (ob_leak a) (ob_leak b).
 
 (* ---------- cases written by the harness ---------- *)
 Record hcase := mkCase { h_ops : list op; h_obs : list obs }.
